@@ -163,7 +163,7 @@ def job_mult(t, f, L=0):
                 elif f in ('prevMultiple', 'floorMultiple'): g.append(('c%d' % k, z3.And(mult, R <= X, X - R < M)))
                 else:
                     d = z3.If(R >= X, R - X, X - R)
-                    g.append(('c%d' % k, z3.And(mult, d + d <= M)))
+                    g.append(('multiple%d' % k, mult)); g.append(('c%d' % k, d + d <= M))
             return g
         known = {'roundMultiple': ['KF-C18-roundMultiple-floors']}.get(f, [])
         S.check_fn(U, f + sfx, spec, pre, solver='portfolio', timeout=S.cap(150, 400), known=known, bounds='all x, all m > 0 with x +- m representable (%d bit)' % W, side=False)
